@@ -136,7 +136,7 @@ class Check:
         args = [sys.executable, os.path.join(TOOLS, 'll2c.py'), ll, '-o', os.path.join(d, 'gen.c'), '--report', os.path.join(d, 'rep.json')]
         exts = list(u.externs)
         if 'vf_file.c' in u.tool_c:      # everything tools/vf_file.c models
-            exts += ['fopen', 'fclose', 'fread', 'fgets', 'getc', 'ungetc', 'rewind', 'strtol', 'strtod', 'strtod_l', 'newlocale', 'freelocale', '__errno_location', 'strcpy']
+            exts += ['fopen', 'fclose', 'fread', 'fgets', 'getc', 'ungetc', 'rewind', 'strtol', 'strtod', 'strtod_l', 'newlocale', 'freelocale', '__errno_location', 'strcpy', 'fputc', 'putc', 'fwrite', 'fflush', 'ferror']
         for e in sorted(set(exts)): args += ['--extern', e]
         args += u.ll2c_args
         rc, out, err, dt = run(args, timeout=600)
